@@ -89,6 +89,33 @@ def owner_branch_checks_shared(fn):
     return True, ""
 
 
+def unique_predicate_instances(F, R, rid, hu_):
+    """shared by C05.d and C03.b"""
+    # the uniqueness test only asks: it is used by get_mut / make_mut, whose caller keeps its reference, so it must leave
+    # the count as it is (the first form of this instance required the compare_exchange(1 -> 0) that the code had, which
+    # zeroed the count of a live box — the check was wrong, see DESIGN §6 fix F6)
+    writers = [lib.short_name(b["callee"]) for _, b in lib.family_calls(F, hu_)
+               if re.search(r"\{impl SharedPacked\}::(compare_exchange|fetch_\w+|store|swap)$|\{impl Cell<T>\}::(set|replace|swap|take)$",
+                            b["callee"])]
+    R.inst(rid, "has_unique_ref only asks: it writes neither counter", not writers,
+           "RcBox::has_unique_ref modifies the count it is asked about (%s): get_mut / make_mut keep their reference after a "
+           "successful test, so a count changed here no longer matches the holders — the next clone+drop frees a value that is "
+           "still held, or the last drop never frees it" % ", ".join(sorted(set(writers))), hu_.loc(), sample=True)
+    sw_owner = [sb for sb in lib.enum_switches(hu_, "Option")]
+    none_ok = False
+    for sb in sw_owner:
+        am = lib.arm_map(hu_, sb)
+        t = am.get("None")
+        if t is None:
+            continue
+        loads = set(hu_.call_blocks(r"\{impl SharedPacked\}::load$"))
+        none_ok = bool(loads) and hu_.every_path_passes_from([t], hu_.returns(), loads)[0]
+        break
+    R.inst(rid, "has_unique_ref / merged branch reads the shared count on every path", none_ok,
+           "RcBox::has_unique_ref's ownerless (merged) branch can answer without reading the shared counter", hu_.loc(),
+           sample=True)
+
+
 def run(F, R, ctx):
     R.rule("C05.a", "RcWord.biased_counter (a Cell) is accessed only in owner-only code: the fast paths called on the "
                     "owner==current-thread branch, arms dominated by `tid == ThreadId::current_thread()`, the merge "
@@ -324,11 +351,7 @@ def run(F, R, ctx):
     R.inst("C05.d", "has_unique_ref / owner branch: local count == 1 and shared count == 0", okb,
            "RcBox::has_unique_ref: %s — it can report uniqueness on the owner thread while another thread still holds a "
            "reference counted in the shared word" % why, hu_.loc(), sample=True)
-    R.inst("C05.d", "has_unique_ref / merged branch: compare_exchange(count 1 -> 0)",
-           bool(hu_.call_blocks(r"\{impl SharedPacked\}::compare_exchange$", wrappers=True)) and
-           any("const:1" in a for a in setc) and any("const:0" in a for a in setc),
-           "RcBox::has_unique_ref's ownerless branch no longer claims the value with compare_exchange(expected count 1)",
-           hu_.loc(), sample=True)
+    unique_predicate_instances(F, R, "C05.d", hu_)
     tu = F.one(r"^steel_rc::\{impl BiasedRc<T>\}::try_unwrap$")
     R.inst("C05.d", "BiasedRc::try_unwrap consults the owner id and the owner counter",
            bool(tu.call_blocks(r"\{impl ThreadId\}::current_thread$", wrappers=True)) and bool(tu.call_blocks(r"try_unwrap_internal(_same_thread)?$", wrappers=True)),
